@@ -287,7 +287,8 @@ func genPlans(rng *rand.Rand, claims []*claimState) {
 	perrs := []string{"none", "none", "none", "none", "none", "generic1", "generic2", "createerr1", "ice-sticky", "ice-sticky", "ice-once", "ncnr-sticky", "ncnr-once"}
 	for _, c := range claims {
 		p := claimPlan{PErr: perrs[rng.Intn(len(perrs))]}
-		p.Reg = world.KubeletOpts{Ready: rng.Intn(5) == 0, NotReadyTaints: rng.Intn(10) < 7, ZeroExtended: rng.Intn(10) < 7, NoUnregistered: rng.Intn(6) == 0}
+		p.Reg = world.KubeletOpts{Ready: rng.Intn(5) == 0, NotReadyTaints: rng.Intn(10) < 7, ZeroExtended: rng.Intn(10) < 7, NoUnregistered: rng.Intn(6) == 0,
+			StartupTaintVariant: []int{0, 0, 1, 2}[rng.Intn(4)]}
 		for _, t := range []string{"notready-noexec", "unreachable", "uninit"} {
 			if rng.Intn(4) == 0 {
 				p.ExtraEph = append(p.ExtraEph, t)
